@@ -134,10 +134,8 @@ func (w *world) newStreamSched() string {
 		w.lease = append(w.lease, finding{"pool=" + pn + " I1 connection leased while it still carries an in-flight stream",
 			fmt.Sprintf("NewStream put a stream on connection %d which already carries %d in-flight stream(s)", s.c.idx, n)})
 	}
-	if !s.c.open() {
-		w.lease = append(w.lease, finding{"pool=" + pn + " I3 NewStream leased a closed connection",
-			fmt.Sprintf("NewStream returned a stream on connection %d which is already closed", s.c.idx)})
-	}
+	// (a connection found closed right after the lease is not judged here: the peer may have closed
+	// it while NewStream was running; leasing a connection that was closed before is the BFS's business)
 	s.ord = len(w.streams)
 	w.streams = append(w.streams, s)
 	sender.GetStream().AddEventListener(s)
@@ -268,7 +266,8 @@ func schedBody(d Driver, sc Scenario, obs *schedObs) {
 }
 
 // MainSchedules is the body of a pool's concurrent C09 test.
-func MainSchedules(t *testing.T, d Driver, scenarios []Scenario, quickBound, thoroughBound int) {
+// In the quick tier only the scenarios with at most quickMaxThreads threads are run.
+func MainSchedules(t *testing.T, d Driver, scenarios []Scenario, quickBound, thoroughBound, quickMaxThreads int) {
 	part := d.Name() + "-schedules"
 	p := vreport.Begin("C09", part, time.Duration(vreport.Pick(4, 20))*time.Minute)
 	obs := &schedObs{}
@@ -278,9 +277,13 @@ func MainSchedules(t *testing.T, d Driver, scenarios []Scenario, quickBound, tho
 			opts.Deadline = time.Now().Add(time.Duration(vreport.Pick(60, 300)) * time.Second)
 		} else {
 			opts.Replay, opts.Prefix = true, c.Choices
+			opts.Trace = os.Getenv("VERIF_DEBUG") != ""
 		}
 		st := vrt.Explore(opts, func() { schedBody(d, c.Scenario, obs) }, func(r *vrt.Result) {
 			p.Eval()
+			if opts.Trace {
+				fmt.Println(strings.Join(r.Trace, "\n"))
+			}
 			cc := c
 			cc.Choices = append([]int(nil), r.Choices...)
 			if obs.herr != "" {
@@ -319,7 +322,12 @@ func MainSchedules(t *testing.T, d Driver, scenarios []Scenario, quickBound, tho
 	}
 	bound := vreport.Pick(quickBound, thoroughBound)
 	complete := true
+	ran := 0
 	for _, sc := range scenarios {
+		if !vreport.Thorough() && len(sc.Threads) > quickMaxThreads {
+			continue
+		}
+		ran++
 		c := SchedCase{Pool: d.Name(), Scenario: sc, Bound: bound}
 		// determinism self-check: the default schedule twice
 		var canon [2]string
@@ -342,6 +350,6 @@ func MainSchedules(t *testing.T, d Driver, scenarios []Scenario, quickBound, tho
 		}
 	}
 	p.End(complete,
-		fmt.Sprintf("pool %s: %d scenarios (2-3 threads of NewStream / reply / remote close after a sequential prefix), every interleaving with <= %d preemptions", d.Name(), len(scenarios), bound),
+		fmt.Sprintf("pool %s: %d scenarios (2-3 threads of NewStream / reply / remote close after a sequential prefix), every interleaving with <= %d preemptions", d.Name(), ran, bound),
 		"stateless DFS over the scheduling choices of the instrumented pool, stream and resource code; one evaluation = one complete execution, checked at exact quiescence with the BFS state oracle (I1-I3, I5; violations already present after the prefix are not reported) and the capacity probe (I4) after draining; distinct = distinct (scenario, canonical end state); outcome = per-thread event outcomes")
 }
